@@ -39,6 +39,9 @@ type FItem struct {
 	Stop   bool `json:"stop"`   // return from the handler at the first failed Write
 	Parent int  `json:"parent"` // -1: top level
 	At     int  `json:"at"`     // served after that many Write calls of the parent (clamped to their number)
+	// Closes: when the handler is done it calls Close on the writer itself that many times, if the writer has such a
+	// method (the deferred Close of NewGzipHandler follows). Close is exported; calling it again must be harmless.
+	Closes int `json:"closes,omitempty"`
 }
 
 type FaultIn struct {
@@ -115,7 +118,18 @@ func recFinish(rec *httptest.ResponseRecorder) (Resp, []byte) {
 // scriptF: the scripted upstream handler of script() plus a hook that runs before every Write (k = Write calls
 // done so far) and once at the end, and the stop-at-first-error policy.
 func scriptF(in *In, chunks [][]byte, probe *bool, stop bool, nerr *int, hook func(k int)) http.Handler {
+	return scriptFC(in, chunks, probe, stop, nerr, hook, 0)
+}
+
+func scriptFC(in *In, chunks [][]byte, probe *bool, stop bool, nerr *int, hook func(k int), closes int) http.Handler {
 	return http.HandlerFunc(func(w http.ResponseWriter, r *http.Request) {
+		defer func() {
+			if c, ok := w.(interface{ Close() }); ok {
+				for k := 0; k < closes && k < 4; k++ {
+					c.Close()
+				}
+			}
+		}()
 		ci := 0
 		for _, o := range in.Ops {
 			switch o.Op {
@@ -181,6 +195,9 @@ func runFault(raw json.RawMessage) (interface{}, error) {
 			}
 			kids[it.Parent] = append(kids[it.Parent], i)
 		}
+		if it.Closes < 0 || it.Closes > 4 {
+			return nil, fmt.Errorf("closes %d", it.Closes)
+		}
 		if it.Cap < -1 {
 			return nil, fmt.Errorf("cap %d", it.Cap)
 		}
@@ -221,7 +238,7 @@ func runFault(raw json.RawMessage) (interface{}, error) {
 			w = &failWriter{rec: rec, room: it.Cap}
 		}
 		nerr := 0
-		h := scriptF(&it.In, chunks[i], &probes[i], it.Stop, &nerr, func(k int) {
+		h := scriptFC(&it.In, chunks[i], &probes[i], it.Stop, &nerr, func(k int) {
 			for _, c := range kids[i] {
 				at := in.Items[c].At
 				if at < 0 {
@@ -234,7 +251,7 @@ func runFault(raw json.RawMessage) (interface{}, error) {
 					serve(c)
 				}
 			}
-		})
+		}, it.Closes)
 		req, _ := mkReq(&it.In, "http://fabio.test/")
 		outs[i] = &FOut{} // marks the exchange as started: a child is served once
 		gz.ServeHTTP(w, req.WithContext(context.WithValue(req.Context(), itemKey{}, h)))
@@ -294,6 +311,8 @@ func received(f *FaultObs, wire []byte) bool {
 
 func sameBlobGo(a, b Blob) bool { return a.Len == b.Len && a.Sha == b.Sha && a.Hex == b.Hex }
 
+func closing(f FItem, n int) FItem { f.Closes = n; return f }
+
 func fItem(in In, capN int, stop bool, parent, at int) FItem {
 	in.Layer = "rec"
 	in.Pattern = ""
@@ -342,7 +361,11 @@ func genFault(r *hx.Rand, i int) interface{} {
 				capN = total + 64 + r.Intn(1000)
 			}
 		}
-		return fItem(in, capN, r.Chance(1, 2), parent, at)
+		f := fItem(in, capN, r.Chance(1, 2), parent, at)
+		if r.Chance(1, 6) {
+			f.Closes = r.Range(1, 2)
+		}
+		return f
 	}
 	for top := r.Range(2, 4); top > 0; top-- {
 		p := len(s.Items)
@@ -389,6 +412,11 @@ func init() {
 			fItem(it("gzip", "image/png", w("\x89PNG\r\n\x1a\n....")), 3, false, 0, 1),
 			fItem(it("br", "text/plain", w("hello"), w("world")), 7, true, -1, 0),
 			fItem(it("gzip", "text/plain", w("hello"), w("world")), -1, false, -1, 0)}},
+		// the handler closes the writer itself, NewGzipHandler's deferred Close follows; then two responses in flight
+		FaultIn{Pattern: DocPattern, Items: []FItem{
+			closing(fItem(it("gzip", "text/plain", w("hello "), w("world")), -1, false, -1, 0), 1),
+			fItem(it("gzip", "text/plain", big(8, 5000), big(9, 5000)), -1, false, -1, 0),
+			fItem(it("gzip", "text/plain", big(10, 6000)), -1, false, 1, 1)}},
 		// three deep
 		FaultIn{Pattern: DocPattern, Items: []FItem{
 			fItem(it("gzip", "text/plain", w("aaaa"), w("bbbb")), -1, false, -1, 0),
